@@ -228,6 +228,25 @@ theorem LogInv.connInner {srv : Server} (h : LogInv srv) (cfg : Config) (cn : Co
 theorem LogInv.setMode {srv : Server} (h : LogInv srv) (c : Nat) (e : Err) : LogInv (setMode srv c e) :=
   h.congr (by simp [sessIds]) (by simp) (by simp)
 
+theorem foldl_inv {α : Type} {P : Server → Prop} (f : Server → α → Server) (hf : ∀ s a, P s → P (f s a)) :
+    ∀ (l : List α) (s : Server), P s → P (l.foldl f s) := by
+  intro l
+  induction l with
+  | nil => intro s h; exact h
+  | cons a l ih => intro s h; exact ih _ (hf s a h)
+
+@[simp] theorem arm_sessions (b srv : Server) (c : Nat) : (arm b srv c).sessions = srv.sessions := rfl
+@[simp] theorem arm_log (b srv : Server) (c : Nat) : (arm b srv c).log = srv.log := rfl
+@[simp] theorem arm_next (b srv : Server) (c : Nat) : (arm b srv c).nextSid = srv.nextSid := rfl
+
+theorem LogInv.arm {srv : Server} (h : LogInv srv) (b : Server) (c : Nat) : LogInv (arm b srv c) :=
+  h.congr rfl rfl rfl
+
+theorem LogInv.silence {srv : Server} (h : LogInv srv) : LogInv (silence srv) := by
+  unfold Sess.silence
+  exact foldl_inv (P := LogInv) _ (fun s ss hs => hs.endSession ss.id) _ _
+    (foldl_inv (P := LogInv) _ (fun s cn hs => hs.closeConn cn.id) _ _ h)
+
 theorem LogInv.nonRequest {srv : Server} (h : LogInv srv) (c : Nat) (b : Bool) : LogInv (nonRequest srv c b) := by
   unfold Sess.nonRequest
   split
@@ -246,7 +265,7 @@ theorem LogInv.handleRequest {srv : Server} (h : LogInv srv) (cfg : Config) (cn 
   dsimp only
   split
   · exact LogInv.closeConn this _
-  · exact LogInv.setMode this _ _
+  · exact LogInv.arm (LogInv.setMode this _ _) _ _
 
 theorem LogInv.stepEv {srv : Server} (h : LogInv srv) (cfg : Config) (e : Event) : LogInv (stepEv cfg srv e).1 := by
   cases e with
@@ -255,6 +274,7 @@ theorem LogInv.stepEv {srv : Server} (h : LogInv srv) (cfg : Config) (e : Event)
   | expire sid => exact h.endSession sid
   | frame c => exact h.nonRequest c true
   | response c => exact h.nonRequest c false
+  | silence => exact h.silence
   | req c r =>
     simp only [Sess.stepEv]
     split
